@@ -18,6 +18,7 @@ direct oracle:   independent of the model: find_class never RETURNS for a name w
                  module is never touched (no attribute access, no call).
 """
 import io
+import os
 import pickle
 import pickletools
 import struct
@@ -319,6 +320,28 @@ def real_load(data, safe=None):
             out["cls"] = e.__class__.__name__ if type(e).__name__ in ("ForbiddenModule", "ModuleNotFoundError") and type(e).__module__ == "deepdiff.serialization" else "other"
     out["calls"] = calls
     out["objs"] = objs
+    return out
+
+
+def real_via(fn, kind):
+    """like real_load, for a callable that loads through Delta(...)"""
+    from deepdiff.serialization import _RestrictedUnpickler
+    calls = []
+    orig = _RestrictedUnpickler.find_class
+
+    def spy(self, m, n):
+        calls.append([m, n, False])
+        r = orig(self, m, n)
+        calls[-1][2] = True
+        return r
+    out = {}
+    with mock.patch.object(_RestrictedUnpickler, "find_class", spy):
+        try:
+            fn(kind)
+            out["exc"] = None
+        except BaseException as e:  # noqa
+            out["exc"] = type(e).__name__
+    out["calls"] = calls
     return out
 
 
@@ -1154,6 +1177,38 @@ def program_case(ctx, ci, cfg, ops, call_fail, build_fail, with_value, tag, ext=
         ctx.fail(dict(case, touched=FLAGS["touched"][:5], called=FLAGS["called"][:5], ext=bool(ext)),
                  "a module none of whose names is allowed was touched while loading (attribute access: %r, calls: %r)" % (
                      FLAGS["touched"][:3], FLAGS["called"][:3]))
+    # the same bytes through the public entry points Delta(bytes) / delta_path / delta_file
+    if tag.get("via_delta"):
+        from deepdiff import Delta
+        import logging
+        logging.disable(logging.CRITICAL)
+        fn = os.path.join(ctx.scratch, "c15_payload.bin")
+        with open(fn, "wb") as f:
+            f.write(data)
+
+        def via(kind):
+            if kind == "bytes":
+                return Delta(data, safe_to_import=arg)
+            if kind == "path":
+                return Delta(delta_path=fn, safe_to_import=arg)
+            with open(fn, "rb") as f:
+                return Delta(delta_file=f, safe_to_import=arg)
+        for kind in ("bytes", "path", "file"):
+            if kind == "bytes" and not data:
+                continue
+            FLAGS["touched"].clear()
+            FLAGS["called"].clear()
+            r2 = real_via(via, kind)
+            ctx.count("prog:via-Delta-" + kind)
+            if [c[:2] for c in r2["calls"]] != [c[:2] for c in res["calls"]] or \
+                    (res["cls"] != "ok" and r2["exc"] != res["exc"]) or \
+                    (res["cls"] == "ok" and r2["exc"] in ("ForbiddenModule", "ModuleNotFoundError")) or \
+                    [c[2] for c in r2["calls"]] != [c[2] for c in res["calls"]]:
+                ctx.fail(dict(case, entry=kind, pickle_load=[res["exc"], res["calls"]], delta=[r2["exc"], r2["calls"]]),
+                         "Delta(%s) does not go through the same restricted load as pickle_load" % kind)
+            if FLAGS["touched"] or FLAGS["called"]:
+                ctx.fail(dict(case, entry=kind, touched=FLAGS["touched"][:5], called=FLAGS["called"][:5], ext=bool(ext)),
+                         "Delta(%s) touched a module none of whose names is allowed" % kind)
     # ---- correspondence case ----------------------------------------------
     failing = None
     if res["calls"] and not res["calls"][-1][2]:     # the exception came out of find_class
@@ -1206,7 +1261,7 @@ def programs_part(ctx, cfgs, n_programs):
         else:
             ops = mutate_ops(rng, ops)
         with_value = not has_calls(node)
-        tag = {"kind": "program", "proto": proto, "mutated": mutated, "hostile": hostile}
+        tag = {"kind": "program", "proto": proto, "mutated": mutated, "hostile": hostile, "via_delta": i % 6 == 0}
         c = program_case(ctx, ci, cfg, ops, call_fail, build_fail, with_value, tag)
         if c is None:
             continue
@@ -1336,7 +1391,7 @@ def run(ctx):
                         {"kind": "default-world"})], label="default world tables")
         decision_part(ctx, cfgs if ctx.thorough else cfgs[:4], max_modules=None if ctx.thorough else 400)
         fixed_programs(ctx, cfgs)
-        programs_part(ctx, cfgs, 12000 if ctx.thorough else 1800)
+        programs_part(ctx, cfgs, 12000 if ctx.thorough else 2400)
     finally:
         remove_sentinels()
 
@@ -1372,6 +1427,28 @@ def replay(ctx, data):
                 res["exc"] or "ok", res["calls"], FLAGS["touched"], FLAGS["called"]))
             ctx.evaluations += 1
             allow = effective_allow_py(cfg[1])
+            if case.get("entry"):
+                from deepdiff import Delta
+                import logging
+                logging.disable(logging.CRITICAL)
+                data = bytes.fromhex(case["bytes_hex"])
+                fn = os.path.join(ctx.scratch, "c15_payload.bin")
+                with open(fn, "wb") as f:
+                    f.write(data)
+
+                def via(kind):
+                    if kind == "bytes":
+                        return Delta(data, safe_to_import=cfg[1])
+                    if kind == "path":
+                        return Delta(delta_path=fn, safe_to_import=cfg[1])
+                    with open(fn, "rb") as f:
+                        return Delta(delta_file=f, safe_to_import=cfg[1])
+                r2 = real_via(via, case["entry"])
+                print("replay: Delta(%s): outcome=%s find_class calls=%r" % (case["entry"], r2["exc"] or "ok", r2["calls"]))
+                if [c[:2] for c in r2["calls"]] != [c[:2] for c in res["calls"]] or (res["cls"] != "ok" and r2["exc"] != res["exc"]) \
+                        or (res["cls"] == "ok" and r2["exc"] in ("ForbiddenModule", "ModuleNotFoundError")) \
+                        or [c[2] for c in r2["calls"]] != [c[2] for c in res["calls"]]:
+                    ctx.fail(case, "Delta(%s) does not go through the same restricted load as pickle_load" % case["entry"])
             bad = [(m, n) for m, n, r in res["calls"] if "%s.%s" % (m, n) not in allow]
             if any(r for m, n, r in res["calls"] if "%s.%s" % (m, n) not in allow) or (bad and res["exc"] != "ForbiddenModule") \
                     or FLAGS["touched"] or FLAGS["called"]:
